@@ -201,11 +201,18 @@ SSE.asyncio = AsyncioShim
 
 # ------------------------------------------------------------------ fake httpx for the SSE transport
 class _SSEResponse:
+    """httpx streaming response: the world feeds BYTES; aiter_text() decodes them incrementally (as httpx does),
+    aiter_bytes()/aiter_raw() hand them on unchanged"""
+
     def __init__(self, status):
         self.status_code = status
+        self.headers = {"content-type": "text/event-stream"}
+        self.encoding = "utf-8"
 
-    def aiter_text(self):
-        resp = self
+    def _iter(self, as_text):
+        from harness.h_C05 import IncDecoder
+
+        dec = IncDecoder(errors="replace")
 
         class It:
             def __aiter__(s):
@@ -215,9 +222,23 @@ class _SSEResponse:
                 kind, val = await _Park("chunk")
                 if kind == "end":
                     raise StopAsyncIteration
-                return val
+                if isinstance(val, str):
+                    return val if as_text else val.encode("utf-8")
+                return dec.decode(val) if as_text else val
 
         return It()
+
+    def aiter_text(self, chunk_size=None):
+        return self._iter(True)
+
+    def aiter_bytes(self, chunk_size=None):
+        return self._iter(False)
+
+    def aiter_raw(self, chunk_size=None):
+        return self._iter(False)
+
+    def aiter_lines(self):
+        raise HarnessError("aiter_lines is not modelled by the fake response")
 
 
 class _StreamCtx:
@@ -379,13 +400,13 @@ def _parse_with_chunks(chunks):
 
 
 def text_len(kinds, crlf):
-    return len(stream_text(kinds, crlf))
+    return len(stream_text(kinds, crlf).encode("utf-8"))
 
 
 def chunking(kinds, crlf, i, d):
     """chunks [t[:i], t[i:i+d], t[i+d:]] (d = 0: two chunks) vs the whole text: same handler invocations, and the
     canonical stream yields each event exactly once, in order"""
-    text = stream_text(kinds, crlf)
+    text = stream_text(kinds, crlf).encode("utf-8")  # the wire carries bytes: cuts may fall inside a multi-byte character
     if not (0 <= i and i + d <= len(text)):
         return "ok"
     whole, r = _parse_with_chunks([text])
